@@ -576,3 +576,33 @@ def check_no_process_state(ctx, funcs: typing.Iterable[FuncInfo], rule="STATE-gl
       else:
         ctx.bad(rule, key, ctx.where(f.module, st), f"`{short(st, 60)}` {what[1]}: the effect persists into later conversions in the same process")
   return n
+
+
+def check_memo_single_producer(ctx, cls, rule="MEMO"):
+  """A dict attribute used as a memo (`self.D[k] = v` after a lookup of `self.D`) is filled by one
+  producer only: when two different computations store into the same dict under keys drawn from
+  the same value space, one reads back the other's result."""
+  from .match import local_defs
+  ix = ctx.ix
+  stores: typing.Dict[str, typing.List[typing.Tuple[str, FuncInfo, ast.AST]]] = {}
+  for m in cls.methods.values():
+    defs = local_defs(m.node)
+    for st in own_nodes(m.node):
+      if isinstance(st, ast.Assign) and len(st.targets) == 1 and isinstance(st.targets[0], ast.Subscript):
+        base = st.targets[0].value
+        if isinstance(base, ast.Attribute) and isinstance(base.value, ast.Name) and base.value.id == "self":
+          v = st.value
+          if isinstance(v, ast.Name) and len(defs.get(v.id, [])) >= 1:
+            cands = {unparse(d.func) if isinstance(d, ast.Call) else unparse(d) for d in defs[v.id] if not (isinstance(d, ast.Subscript) and unparse(d.value) == unparse(base))}
+            prod = " | ".join(sorted(cands))
+          else:
+            prod = unparse(v.func) if isinstance(v, ast.Call) else unparse(v)
+          stores.setdefault(base.attr, []).append((prod, m, st))
+  n = 0
+  for d, lst in sorted(stores.items()):
+    n += 1
+    ctx.unit(cls.module)
+    prods = sorted({p for p, _, _ in lst})
+    ctx.check(len(prods) == 1, rule, f"{cls.qualname}|self.{d} has a single producer", ctx.where(cls.module, lst[0][2]), f"filled by `{prods[0]}`",
+              f"the memo `self.{d}` is filled by different computations ({', '.join('`' + p + '`' for p in prods)}): a key stored by one is read back by the other")
+  return n
